@@ -46,7 +46,7 @@ package indexer
 // gap loop: visited heights at or below the new lower bound are gone, nothing else moved
 //@   loop 1 invariant forall g uint64 :: has(i.blockHeightToBlock, g) ==> old(has(i.blockHeightToBlock, g)) && i.blockHeightToBlock[g] == old(i.blockHeightToBlock[g])
 //@   loop 1 invariant forall g uint64 :: old(has(i.blockHeightToBlock, g)) && !has(i.blockHeightToBlock, g) ==> g <= blk.Block.Hght - i.blockWindow
-//@   loop 1 invariant forall g uint64 :: has(visited1, g) && g <= blk.Block.Hght - i.blockWindow ==> !has(i.blockHeightToBlock, g)
+//@   loop 1 invariant forall g uint64 :: has(visited1, g) && g < blk.Block.Hght - i.blockWindow ==> !has(i.blockHeightToBlock, g)
 //@   loop 1 invariant i.lastHeight == old(i.lastHeight)
 //@   loop 1 invariant forall g uint64 :: has(i.blockHeightToBlock, g) ==> !isnil(i.blockHeightToBlock[g]) && !isnil(i.blockHeightToBlock[g].Block) && i.blockHeightToBlock[g].Block.Hght == g
 //@   loop 1 invariant forall g uint64, j int :: has(i.blockHeightToBlock, g) && 0 <= j && j < len(i.blockHeightToBlock[g].Block.Txs) ==> !isnil(i.blockHeightToBlock[g].Block.Txs[j])
